@@ -2,7 +2,8 @@
 mostly charge-conserving transformations so that runs still reach the end:
   A residue rows renamed + mapping section, B atom rows renamed + alias section (regex), C radii / pairwise charge
   perturbation, D optional 5th column, comments, blank lines, E cumulative override section onto a perturbed
-  copy, F alias chains, G a deleted row (atom becomes unassigned), H $group mapping."""
+  copy, F alias chains, G a deleted row (atom becomes unassigned), H $group mapping,
+  I (residue, atom) pairs listed twice (appended override block; the later line supersedes the earlier one)."""
 import re
 
 from ..common import REPO
@@ -103,6 +104,18 @@ def make(rng, base="AMBER"):
             names = names.replace("<useresname>GLU</useresname>", f"<useresname>{p}G</useresname>")
             head.append(f"  <residue>\n    <name>([AG])(?:SP|LU)</name>\n    <useresname>{p}$group</useresname>\n  </residue>")
             notes.append(("group", p))
+    # I: a block of local overrides appended to the table - (residue, atom) pairs listed a second time with other
+    # values; the table is read top to bottom, so the later line is the file's value for that pair
+    if rng.random() < 0.4:
+        for res in rng.sample(residues, min(len(residues), rng.randint(1, 4))):
+            idx = [i for i, r in enumerate(rows) if r[0] == res]
+            if len(idx) < 2:
+                continue
+            i, j = rng.sample(idx, 2)
+            d = rng.choice([0.05, -0.02, 0.2])
+            rows.append([rows[i][0], rows[i][1], round(rows[i][2] + d, 4), round(rows[i][3] + 0.3, 4), rows[i][4]])
+            rows.append([rows[j][0], rows[j][1], round(rows[j][2] - d, 4), rows[j][3], rows[j][4]])
+            notes.append(("repeated-rows", res, rows[i][1], rows[j][1]))
     out = ["# user force field generated by the verification harness", ""]
     for k, r in enumerate(rows):
         if k % 37 == 0 and rng.random() < 0.5:
